@@ -124,6 +124,11 @@ impl Plan {
         }
         for op in &self.ops {
             h.str(op.k);
+            if op.k == "freeze" {
+                // Fault enumeration: the stall point is part of the shape.
+                h.u64(op.a[0]);
+                h.u64(op.a[1]);
+            }
         }
         h.0
     }
